@@ -124,6 +124,72 @@ func checkC17(c *Ctx, r *Report) {
 			r.Fail("C17.R2", "ByteSize.String picks an exact unit", c.InstrPos(ts), "the unit printed is not chosen by a module function that can be checked for a divisibility test")
 			continue
 		}
+		// the selector may hand the work to a generic "largest unit accepted by a filter" helper:
+		// follow the tail call, remembering the filter closures it passes
+		filters := map[*ssa.Parameter]*ssa.Function{}
+		for depth := 0; depth < 2; depth++ {
+			var only *ssa.Return
+			nr := 0
+			eachInstr(selFn, func(in ssa.Instruction) {
+				if ret, ok := in.(*ssa.Return); ok && !isRecoverReturn(ret) {
+					only = ret
+					nr++
+				}
+			})
+			if nr != 1 || len(only.Results) != 1 {
+				break
+			}
+			call, ok := only.Results[0].(*ssa.Call)
+			if !ok {
+				break
+			}
+			g := staticCallee(call)
+			if g == nil || g.Blocks == nil || originPkgPath(g) != originPkgPath(selFn) || len(call.Call.Args) == 0 || len(selFn.Params) == 0 || cellValue(call.Call.Args[0]) != ssa.Value(selFn.Params[0]) {
+				break
+			}
+			nf := map[*ssa.Parameter]*ssa.Function{}
+			for i, a := range call.Call.Args {
+				if mc, ok := a.(*ssa.MakeClosure); ok && i < len(g.Params) {
+					nf[g.Params[i]] = mc.Fn.(*ssa.Function)
+					// the closure must test the value being printed: its captured variable is the receiver
+					for _, bnd := range mc.Bindings {
+						if cellValue(bnd) != ssa.Value(selFn.Params[0]) {
+							delete(nf, g.Params[i])
+						}
+					}
+				}
+			}
+			selFn, filters = g, nf
+		}
+		// does the filter closure accept exactly on captured % unit == 0 ?
+		isDivFilter := func(cl *ssa.Function) bool {
+			if len(cl.Params) != 1 || len(cl.FreeVars) != 1 {
+				return false
+			}
+			ok, nret := true, 0
+			eachInstr(cl, func(in ssa.Instruction) {
+				ret, isRet := in.(*ssa.Return)
+				if !isRet {
+					return
+				}
+				nret++
+				eq, isB := ret.Results[0].(*ssa.BinOp)
+				if !isB || eq.Op != token.EQL {
+					ok = false
+					return
+				}
+				rem, isR := eq.X.(*ssa.BinOp)
+				k, isC := constInt(eq.Y)
+				if !isR || rem.Op != token.REM || !isC || k != 0 || rem.Y != ssa.Value(cl.Params[0]) {
+					ok = false
+					return
+				}
+				if !derivesFrom(rem.X, func(v ssa.Value) bool { return v == ssa.Value(cl.FreeVars[0]) }) {
+					ok = false
+				}
+			})
+			return ok && nret > 0
+		}
 		// every update of the returned rune (phi edges that are not the initial constant) happens under value % unit == 0
 		okAll, n := true, 0
 		eachInstr(selFn, func(in ssa.Instruction) {
@@ -152,8 +218,16 @@ func checkC17(c *Ctx, r *Report) {
 					}
 					n++
 					pred := p.Block().Preds[i]
-					fs := factStrs(selFn, pred.Instrs[len(pred.Instrs)-1])
+					last := pred.Instrs[len(pred.Instrs)-1]
+					fs := factStrs(selFn, last)
 					div := false
+					for _, fc := range factsAt(selFn, last) {
+						if call, ok := fc.cond.(*ssa.Call); ok && fc.truth {
+							if prm, ok := call.Call.Value.(*ssa.Parameter); ok && filters[prm] != nil && isDivFilter(filters[prm]) {
+								div = true
+							}
+						}
+					}
 					for k := range fs {
 						if strings.Contains(k, "$b%") && (strings.HasSuffix(k, "!=0=false") || strings.HasSuffix(k, "==0=true")) {
 							div = true
@@ -439,6 +513,37 @@ func checkC18(c *Ctx, r *Report) {
 		ver := findCall(f, "(*"+configPkg+".Config).verify")
 		per := findCall(f, "(*"+configPkg+".Config).persist")
 		setp := findCall(f, configPkg+".setPropsFromMapRecursive")
+		if setp == nil {
+			// reached through a thin wrapper that hands the results back unchanged
+			eachInstr(f, func(in ssa.Instruction) {
+				call, ok := in.(*ssa.Call)
+				if !ok || setp != nil {
+					return
+				}
+				h := unwrapSynthetic(staticCallee(call))
+				if h == nil || h.Blocks == nil || originPkgPath(h) != configPkg {
+					return
+				}
+				inner := findCall(h, configPkg+".setPropsFromMapRecursive")
+				if inner == nil {
+					return
+				}
+				tail := true
+				eachInstr(h, func(i2 ssa.Instruction) {
+					if ret, ok := i2.(*ssa.Return); ok && !isRecoverReturn(ret) {
+						for i, v := range retVals(ret) {
+							ex, isEx := resolveVal(v).(*ssa.Extract)
+							if !isEx || ex.Tuple != ssa.Value(inner) || ex.Index != i {
+								tail = false
+							}
+						}
+					}
+				})
+				if tail {
+					setp = call
+				}
+			})
+		}
 		if ver == nil || per == nil || setp == nil {
 			r.Fail("C18.R1", "UpdatePartialFromConfig anchors", c.Pos(f.Pos()), "verify / persist / setPropsFromMapRecursive call missing")
 			continue
@@ -459,22 +564,38 @@ func checkC18(c *Ctx, r *Report) {
 		}
 		r.Floor("C18.R1", nConf, 1, "ConfirmCommitted call sites")
 		// rollback on every error exit after staging
+		var rollsBack func(g *ssa.Function, d int) bool
+		rollsBack = func(g *ssa.Function, d int) bool {
+			found := false
+			eachInstr(g, func(i2 ssa.Instruction) {
+				c2, ok := i2.(*ssa.Call)
+				if !ok || found {
+					return
+				}
+				if c2.Call.IsInvoke() {
+					found = c2.Call.Method.Name() == "RollbackStaged"
+					return
+				}
+				if d < 3 {
+					for _, h := range li.Callees[i2] {
+						if originPkgPath(h) == configPkg && rollsBack(h, d+1) {
+							found = true
+						}
+					}
+				}
+			})
+			return found
+		}
 		isRollback := func(in ssa.Instruction) bool {
 			call, ok := in.(*ssa.Call)
 			if !ok {
 				return false
 			}
-			if call.Call.IsInvoke() && call.Call.Method.Name() == "RollbackStaged" {
-				return true
+			if call.Call.IsInvoke() {
+				return call.Call.Method.Name() == "RollbackStaged"
 			}
 			for _, g := range li.Callees[in] {
-				found := false
-				eachInstr(g, func(i2 ssa.Instruction) {
-					if c2, ok := i2.(*ssa.Call); ok && c2.Call.IsInvoke() && c2.Call.Method.Name() == "RollbackStaged" {
-						found = true
-					}
-				})
-				if found {
+				if rollsBack(g, 0) {
 					return true
 				}
 			}
@@ -726,7 +847,7 @@ func checkC18(c *Ctx, r *Report) {
 				return
 			}
 			n++
-			fs := factStrs(f, call)
+			fs := factStrsDeep(f, call)
 			okTag := false
 			for k := range fs {
 				if strings.Contains(k, "Lookup(") && strings.Contains(k, `"json"`) && (strings.HasSuffix(k, "!=range#0=false") || strings.Contains(k, "!=") && strings.HasSuffix(k, "=false") || strings.Contains(k, "==") && strings.HasSuffix(k, "=true")) {
